@@ -410,9 +410,22 @@ class SimTransport(transports._FlowControlMixin, transports.Transport):
         if self._closing:
             return
         self._closing = True
-        self._conn_lost = True
         self._sock_close = "fin"
+        if self.get_write_buffer_size() > 0:
+            # asyncio: with unsent bytes in the write buffer close() only stops reading; connection_lost (and with it
+            # wait_closed()) comes when the buffer has been flushed to the peer - or the connection breaks
+            self._close_when_drained = True
+            self.net.stats["net_close_waits_for_unsent_bytes"] += 1
+            return
+        self._conn_lost = True
         self._loop.call_soon(self._call_connection_lost, None)
+
+    def _drained_or_dead(self):
+        """called by the network when it took bytes of this end or the connection died (on any thread: goes through the inbox)"""
+        if getattr(self, "_close_when_drained", False) and not self._conn_lost and self.get_write_buffer_size() == 0:
+            self._close_when_drained = False
+            self._conn_lost = True
+            self._loop._inbox.append(lambda: self._call_connection_lost(None))
 
     def abort(self):
         self._force_close(None)
@@ -669,6 +682,8 @@ class SimNet:
             if self.wbuf_high is not None and src is not None and src._protocol_paused and not src._conn_lost:
                 # the network took bytes: the sender's transport may resume its protocol (on its own loop)
                 src._loop._inbox.append(src._maybe_resume_protocol)
+            if src is not None and getattr(src, "_close_when_drained", False):
+                src._drained_or_dead()
             self._deliver_bytes(conn, p, dst, frag)
             if n < len(frag) + len(p.buf):
                 self.stats["net_fragments"] += 1
@@ -711,6 +726,9 @@ class SimNet:
             p.buf.clear()
             p.fin = False
             p.dead = True
+        for tr in conn.ends:
+            if tr is not None and getattr(tr, "_close_when_drained", False):
+                tr._drained_or_dead()
         for tr in conn.ends:
             if tr is None or tr._conn_lost:
                 continue
